@@ -153,6 +153,12 @@ def _add(
         return failed
 
     def _error(oid: str, exc: BaseException):
+        if isinstance(exc, PermissionError) and dest.is_protected(
+            dest.oid_to_path(oid)
+        ):
+            # a concurrent writer added and write-protected this very object
+            # after it was found to be new: it is there
+            return
         _log_exception(oid, exc)
         failed.add(HashInfo(src.hash_name, oid))
 
